@@ -20,17 +20,17 @@ pub fn prop() -> Prop {
 fn spec() -> Spec {
     Spec {
         kinds: vec![
-            Kind { name: "rigid", quick: 150_000, thorough: 6_000_000, serial: false },
-            Kind { name: "collinear", quick: 60_000, thorough: 2_000_000, serial: false },
-            Kind { name: "congruence", quick: 60_000, thorough: 2_000_000, serial: false },
-            Kind { name: "forward_transformed", quick: 40_000, thorough: 2_000_000, serial: false },
+            Kind { name: "rigid", quick: 600_000, thorough: 15_000_000, serial: false },
+            Kind { name: "collinear", quick: 200_000, thorough: 5_000_000, serial: false },
+            Kind { name: "congruence", quick: 200_000, thorough: 5_000_000, serial: false },
+            Kind { name: "forward_transformed", quick: 150_000, thorough: 4_000_000, serial: false },
         ],
         rule: "rigid: random triangles (side 1e-2..1e2 m, angle at p1 with sin >= 1e-6, up to 1e3 m from the origin) x random rigid motions incl. rotations next to 180 degrees: result Ok, proper, maps p_i to q_i, equals the generating motion. collinear: p3 = p1 + t*(p2-p1) evaluated in floating point and exactly representable integer cases, sources and targets: Err(ColinearPoints) with the right flag. congruence: one pairwise distance changed by >= 5 mm + 1e-9 => Err(NotIsometry), by <= 5 mm - 1e-9 => Ok and still a proper rigid map with p1 -> q1. forward_transformed: pose == frame*FK(q), every solution realises it, list ordered by closeness to previous. Frame::translation: pure shift q-p. non-trivial = rotation angle > 1e-3 (rigid) / conclusive rejection; distinct = hash(points)",
         assumptions: vec![
             "sin(angle at p1) between 1e-12 and 1e-6: either outcome accepted, but an Ok result must be a proper rotation mapping p1 to q1",
             "mapping tolerance 1e-9*scale/sin(angle) + 1e-12*|offset|",
         ],
-        minimums: vec![("oracle_evals", 300_000, 10_000_000), ("collinear.expected_rejections", 30_000, 1_000_000), ("congruence.above", 10_000, 400_000), ("congruence.below", 10_000, 400_000)],
+        minimums: vec![("oracle_evals", 1_000_000, 25_000_000), ("collinear.expected_rejections", 100_000, 2_500_000), ("congruence.above", 50_000, 1_000_000), ("congruence.below", 50_000, 1_000_000)],
     }
 }
 
